@@ -14,6 +14,7 @@ def main():
     log = a[0]
     only = a[a.index("--only") + 1] if "--only" in a else ""
     jobs = int(a[a.index("--jobs") + 1]) if "--jobs" in a else 2
+    skip = a[a.index("--skip") + 1].split(",") if "--skip" in a else []
     work = []
     for d in sorted(glob.glob(os.path.join(root, "seeded", "C*"))):
         mp = os.path.join(d, "meta.json")
@@ -24,6 +25,8 @@ def main():
             continue   # the repaired code no longer has the mechanism this change broke
         if only and not meta["id"].startswith(only):
             continue
+        if any(meta["property"] == x for x in skip):
+            continue
         m = re.match(r"(C\d+)-(C\d+)-m(\d+)", meta["id"])
         props = [meta["property"]] + sorted(p for p in set(meta.get("caught_by", [])) | set(meta.get("results", {})) if p != meta["property"])
         work.append((f"== seed-{m.group(2)} mutant{m.group(3)} -> {' '.join(props)}", os.path.join(d, "patch.diff"), props))
@@ -31,6 +34,8 @@ def main():
     if os.path.exists(idx):
         for commit, props in json.load(open(idx)).items():
             if only and not commit.startswith(only):
+                continue
+            if any(x in props for x in skip):
                 continue
             work.append((f"== revert {commit} -> {' '.join(props)}", os.path.join(root, "seeded", "reverts", commit + ".diff"), props))
 
